@@ -162,6 +162,8 @@ def check(run_):
                         "stand-in: histories of runs over a shared cache directory and simulated crash points of the cache write on the real Balancer, each "
                         "compared with the uncached run; plus a syntactic obligation on what reaches the cache key")
     run_.deductive(["contracts.cache"])
+    from checks.props import pipeline_common as PC
+    run_.deductive(PC.MODULES, only=["Balancer.__try_cache", "Balancer.__rebalance_batch"])
     run_.trust("operating system / json: open('w') truncates, json.dump leaves DUMPS(v) in the file, os.replace is an atomic rename, LOADS(DUMPS(v)) == v; "
                "a crash is a stop between two of these calls or inside json.dump (only the temporary file holds a prefix); fsync / power loss not modelled")
     args = key_arguments()
